@@ -226,7 +226,16 @@ class SdkRun:
             return [{"s": "loop", "start": s["start"], "stop": s["stop"], "step": s["step"], "body": holder["body"]}]
         if k == "foreach":
             arr = self.arrays[s["a"]]
-            ctx = arr.enumerate() if s["enum"] else arr.foreach()
+            if s.get("reuse"):
+                # the application keeps the context object and enters it again later
+                if not hasattr(self, "_kept_ctx"):
+                    self._kept_ctx = {}
+                kk = (s["a"], s["enum"])
+                if kk not in self._kept_ctx:
+                    self._kept_ctx[kk] = arr.enumerate() if s["enum"] else arr.foreach()
+                ctx = self._kept_ctx[kk]
+            else:
+                ctx = arr.enumerate() if s["enum"] else arr.foreach()
             with ctx as got:
                 reg = got[0] if s["enum"] else got._index
                 self.loopvars.append(reg)
